@@ -556,6 +556,59 @@ func (g *Gen) bigVecMerge() {
 	g.st("vec.bigmerge")
 }
 
+// ancestorMergeCase: A and B merged into M, then A merged with M while M's copies of A's documents are
+// deleted (and, the other way round, A's documents deleted in favour of M's copies): every vector is
+// owned by exactly one surviving document, although the same vector ids occur in two inputs.
+func (g *Gen) ancestorMergeCase() {
+	g.setMode()
+	mk := func(nd int) (string, *BatchSpec) {
+		b := &BatchSpec{Name: g.fresh("b")}
+		for d := 0; d < nd; d++ {
+			id := []byte(fmt.Sprintf("%s-%d", b.Name, d))
+			doc := DocSpec{ID: id, Plain: true}
+			doc.Fields = append(doc.Fields, FieldSpec{Kind: "fld", Name: "_id", Typ: 't', Stored: true, Len: 1, Val: id, Toks: []TokSpec{{Term: id, Freq: 1}}})
+			doc.Fields = append(doc.Fields, FieldSpec{Kind: "vec", Name: "vecA", Dim: 2, Metric: "l2_norm", Opt: g.vecOpt["vecA"], Vec: []int{g.r.Intn(9) - 4, g.r.Intn(9) - 4}})
+			b.Docs = append(b.Docs, doc)
+		}
+		g.emitBatch(b)
+		s := g.fresh("s")
+		g.emit("build %s %s", s, b.Name)
+		g.newBuilt(s, b)
+		return s, b
+	}
+	a, ba := mk(5)
+	bseg, bb := mk(4)
+	fm := g.fresh("f")
+	g.emit("merge %s segs=%s,%s drops=nil|nil", fm, a, bseg)
+	m := g.fresh("m")
+	g.emit("open %s %s", m, fm)
+	g.ndocs[m] = 9
+	for _, c := range []struct{ segs, drops string }{
+		{a + "," + m, "nil|0,1,2,3,4"}, {m + "," + a, "0,1,2,3,4|nil"}, {a + "," + m, "0,1,2,3,4|nil"}, {a + "," + m, "0,2,4|1,3"},
+	} {
+		f2 := g.fresh("f")
+		g.emit("merge %s segs=%s drops=%s", f2, c.segs, c.drops)
+		m2 := g.fresh("m")
+		g.emit("open %s %s", m2, f2)
+		g.emit("vstats %s", m2)
+		h := g.fresh("h")
+		g.emit("vopen %s %s vecA filt=0 ex=nil", h, m2)
+		for _, bx := range []*BatchSpec{ba, bb} {
+			for d := range bx.Docs {
+				g.emit("vsearch %s q=%s k=2", h, intList(vecOfDoc(bx, d, "vecA")))
+			}
+		}
+		g.emit("vsearch %s q=%s k=40", h, g.randQuery(2))
+		g.emit("vclose %s", h)
+		g.emit("close %s", m2)
+	}
+	g.emit("close %s", m)
+	g.emit("close %s", a)
+	g.emit("close %s", bseg)
+	g.emit("vcounters")
+	g.st("vec.ancestormerge")
+}
+
 func (g *Gen) genC15(n int) error {
 	if n == 0 {
 		n = g.tierN(30, 500)
@@ -563,6 +616,11 @@ func (g *Gen) genC15(n int) error {
 	for i := 0; i < n; i++ {
 		g.emit("note case %d", i)
 		g.emit("vreset")
+		if i%20 == 13 {
+			g.ancestorMergeCase()
+			g.st("case")
+			continue
+		}
 		if i%20 == 7 {
 			g.bigVecMerge()
 			continue
@@ -627,13 +685,26 @@ func (g *Gen) clusteredHistoryCase() {
 	qs := []string{g.randQuery(2), intList(vecOfDoc(b, nd/2, "vecA")), g.randQuery(2)}
 	h := g.fresh("h")
 	g.emit("vopen %s %s vecA filt=1 ex=nil", h, o1)
+	var every3 []int
+	for d := 0; d < nd; d += 3 {
+		every3 = append(every3, d)
+	}
 	ask := func(hh string) {
 		for qi, q := range qs {
 			g.emit("vsearch %s q=%s k=400 same=%s.%d.400", hh, q, tag, qi)
 			g.emit("vsearch %s q=%s k=7 same=%s.%d.7", hh, q, tag, qi)
 		}
 	}
+	// filtered questions asked again and again (handles that do not filter cannot ask them)
+	askF := func(hh string) {
+		for qi, q := range qs {
+			for r := 0; r < 3; r++ {
+				g.emit("vsearch %s q=%s k=150 elig=%s same=%s.f%d", hh, q, intList(every3), tag, qi)
+			}
+		}
+	}
 	ask(h)
+	askF(h)
 	// filtered searches that need fewer / more clusters than the index was built to probe
 	g.emit("vsearch %s q=%s k=5 elig=%d", h, qs[0], nd/3)
 	ask(h)
@@ -644,6 +715,7 @@ func (g *Gen) clusteredHistoryCase() {
 	g.emit("vsearch %s q=%s k=50 elig=%s", h, qs[1], intList(half))
 	g.emit("vsearch %s q=%s k=3 elig=%d,%d", h, qs[2], 1, nd-1)
 	ask(h)
+	askF(h)
 	g.emit("vclose %s", h)
 	for t := 0; t < 6; t++ {
 		g.emit("vtick %s", o1)
@@ -655,7 +727,8 @@ func (g *Gen) clusteredHistoryCase() {
 	g.emit("open %s %s", o2, f)
 	g.alias(o2, s)
 	h3 := g.fresh("h")
-	g.emit("vopen %s %s vecA filt=0 ex=nil", h3, o2)
+	g.emit("vopen %s %s vecA filt=1 ex=nil", h3, o2)
+	askF(h3)
 	ask(h3)
 	g.emit("vclose %s", h3)
 	g.emit("close %s", o2)
